@@ -174,7 +174,16 @@ func c12(run *core.Run, replay string) {
 		"optionally a second codec instance is run back-to-back in the same bitstream. non-trivial = block length >= 2 (codec actually codes symbols); distinct = (codec, shape, size, prefix, second)")
 	installNormalizeMonitor()
 	check := func(c *entCase) {
-		k, d := runEntCase(c)
+		if core.Hangs() >= 3 {
+			return
+		}
+		g, returned := guarded(func() kd { k, d := runEntCase(c); return kd{k, d, true} })
+		if !returned {
+			run.Eval(1)
+			run.Violate("C12 hang codec="+c.Codec, fmt.Sprintf("shape=%s size=%d: encode/decode never returned (60 s, then 180 s)", c.Shape, c.Size), c)
+			return
+		}
+		k, d := g.k, g.d
 		run.Eval(1)
 		if c.Size >= 2 {
 			run.Nontrivial(fmt.Sprintf("%s|%s|%d|%d|%s|%d", c.Codec, c.Shape, c.Size, c.Prefix, c.Second, c.Size2))
